@@ -20,7 +20,7 @@ Snp(val, rv, script) == [val |-> val, rv |-> rv, script |-> script]
 Cls(inv, oncall, onset) == [inv |-> inv, oncall |-> oncall, onset |-> onset, repr |-> 0, base |-> 0]
 Obj(cls, st0) == [cls |-> cls, st0 |-> st0]
 
-NoFault == [at |-> 0, kind |-> "", n |-> 0]
+NoFault == [at |-> 0, kind |-> "", n |-> 0, more |-> <<>>]
 
 RetV(v) == [k |-> "ret", cls |-> "", v |-> v]
 RaiseV(c, v) == [k |-> "raise", cls |-> c, v |-> v]
